@@ -3,6 +3,7 @@
   `Gen.normalizeAxisInt` is GENERATED from `_utils.normalize_axis`.
 -/
 import SparseV.Lemmas.Reduce
+import SparseV.Lemmas.Gen.Axis
 namespace SparseV.C03
 open SparseV SparseV.COO
 
@@ -11,8 +12,7 @@ is then mapped to `axis mod ndim`; otherwise `ValueError` (NumPy's AxisError is 
 theorem normalize_axis_spec (axis ndim : Int) :
     Gen.normalizeAxisInt axis ndim =
       (if -ndim ≤ axis ∧ axis < ndim then .ok (if axis < 0 then axis + ndim else axis) else .error Err.value) := by
-  simp only [Gen.normalizeAxisInt]
-  grind
+  exact Gen.normalizeAxisInt_eq axis ndim
 
 /-- accepted axes land in range -/
 theorem normalize_axis_range (axis ndim r : Int) (h : Gen.normalizeAxisInt axis ndim = .ok r) :
